@@ -202,5 +202,17 @@ def _access_kind(n):
     return "load"
 
 
+def method_calls_on_attr(repo, attr, methods=None, modules=None):
+    """[(fi, call)] for calls  <recv>.<attr>.<method>(...)  e.g. self.incoming_messages.append(x)"""
+    out = []
+    for a in attr_accesses(repo, attr, modules):
+        p = getattr(a.node, "_parent", None)
+        if isinstance(p, ast.Attribute) and p.value is a.node:
+            pp = getattr(p, "_parent", None)
+            if isinstance(pp, ast.Call) and pp.func is p and (methods is None or p.attr in methods):
+                out.append((a.fi, pp))
+    return out
+
+
 def name_uses(fi, name):
     return [n for n in walk_own(fi.node) if isinstance(n, ast.Name) and n.id == name]
